@@ -356,18 +356,38 @@ fn isolated_session(args: &[String], i: usize, out: &str) -> Result<Vec<String>,
     a.extend(args.iter().filter(|x| !x.starts_with("out=") && !x.starts_with("isolate=")).cloned());
     a.push(format!("only={}", i));
     a.push(format!("out={}", tmp));
-    let st = std::process::Command::new(exe)
+    let mut child = std::process::Command::new(exe)
         .args(&a)
         .stdout(std::process::Stdio::null())
         .stderr(std::process::Stdio::null())
-        .status()
+        .spawn()
         .map_err(|e| e.to_string())?;
-    let res = if st.success() {
+    // wall-clock watchdog: loops at the Rust level (not counted in VM instructions) are data too
+    let limit = std::time::Duration::from_secs(
+        std::env::var("VERIF_CHILD_SECS").ok().and_then(|v| v.parse().ok()).unwrap_or(90),
+    );
+    let t0 = std::time::Instant::now();
+    let mut hung = false;
+    let st = loop {
+        match child.try_wait().map_err(|e| e.to_string())? {
+            Some(st) => break st,
+            None => {
+                if t0.elapsed() > limit {
+                    hung = true;
+                    let _ = child.kill();
+                    break child.wait().map_err(|e| e.to_string())?;
+                }
+                std::thread::sleep(std::time::Duration::from_millis(20));
+            }
+        }
+    };
+    let res = if st.success() && !hung {
         let text = std::fs::read_to_string(&tmp).map_err(|e| e.to_string())?;
         Ok(text.lines().map(|l| l.to_string()).collect())
     } else {
         use std::os::unix::process::ExitStatusExt;
         let how = match st.signal() {
+            _ if hung => format!("no termination within {} s (killed)", limit.as_secs()),
             Some(sig) => format!("signal {}", sig),
             None => format!("exit status {}", st.code().unwrap_or(-1)),
         };
